@@ -460,6 +460,7 @@ package bkl
 
 //@ func process1(obj, mergeFrom, mergeFromDocs, depth) (res, err)
 //@   propagates all   [C08]
+//@   ensures (=> (not (isErr err)) (noNullV res))     [C13]
 //@   ensures (=> (quiet obj depth) (and (not (isErr err)) (= res (dropF obj))))          [C06]
 //@   inplace obj
 //@   property C10
@@ -467,12 +468,14 @@ package bkl
 //@ func process1Map(obj, mergeFrom, mergeFromDocs, depth) (res, err)
 //@   propagates all   [C08]
 //@   uses escNames
+//@   ensures (=> (not (isErr err)) (noNullV res))     [C13]
 //@   ensures (=> (quiet obj (- depth 1)) (not (isErr err)))                                [C06]
 //@   ensures (=> (quiet obj (- depth 1)) (and ((_ is VMap) res) (forall ((j String)) (= (select (mc res) j)   [C06]
 //@              (ite (or (= (select (mc obj) j) VAbsent) (= (dropF (select (mc obj) j)) VNil)) VAbsent (dropF (select (mc obj) j)))))))
 //@   ensures (=> (quiet obj (- depth 1)) (= res (dropF obj)))                              [C06] [follows]
 //@   call filterMap#1
 //@     invariant ((_ is VMap) ret)
+//@     invariant (noNullV ret)     [C13]
 //@     invariant (=> (quiet m (- depth 1)) (forall ((j String)) (=> (select visited j) (= (select (mc ret) j) (ite (= (dropF (select (mc m) j)) VNil) VAbsent (dropF (select (mc m) j)))))))   [C06]
 //@     invariant (=> (quiet m (- depth 1)) (forall ((j String)) (=> (not (select visited j)) (= (select (mc ret) j) VAbsent))))   [C06]
 //@   inplace obj
@@ -485,6 +488,7 @@ package bkl
 //@     assert (and (= (select (mc obj@pre) "$merge") VAbsent) (= v (select (mc obj@pre) "$replace")))        [C10]
 //@ func process1MapMerge(obj, mergeFrom, mergeFromDocs, v, depth) (res, err)
 //@   propagates all   [C08]
+//@   ensures (=> (not (isErr err)) (noNullV res))     [C13]
 //@   inplace obj
 //@   property C10
 //@   requires ((_ is VMap) obj)
@@ -495,13 +499,15 @@ package bkl
 //@     assert (=> ((_ is VList) v) (listPathOK (heap Document.Data) (Document.Data mergeFrom) mergeFromDocs (ls v) in false))  [C10]
 //@ func process1MapReplace(obj, mergeFrom, mergeFromDocs, v, depth) (res, err)
 //@   propagates all   [C08]
+//@   ensures (=> (not (isErr err)) (noNullV res))     [C13]
 //@   decreases (- 1002 depth) 1
 //@   at call process1#1
 //@     assert (=> ((_ is VStr) v) (strPathOK (heap Document.Data) (Document.Data mergeFrom) mergeFromDocs (sv v) next false))    [C10]
 //@     assert (=> ((_ is VList) v) (listPathOK (heap Document.Data) (Document.Data mergeFrom) mergeFromDocs (ls v) next false))  [C10]
 //@ func process1List(obj, mergeFrom, mergeFromDocs, depth) (res, err)
 //@   propagates all   [C08]
-//@   uses appNil, snocApp, escNoKey
+//@   uses appNil, snocApp, escNoKey, noNullApp
+//@   ensures (=> (not (isErr err)) (noNullV res))     [C13]
 //@   ensures (=> (quiet obj (- depth 1)) (and (not (isErr err)) (= res (dropF obj))))    [C06]
 //@   call filterList#1
 //@     invariant ((_ is VList) ret)
@@ -518,24 +524,29 @@ package bkl
 //@     assert (and (= m@arg m) (not (= m VNil)) (= obj@arg obj))                                             [C10]
 //@   call filterList#2
 //@     invariant ((_ is VList) ret)
+//@     invariant (noNullL (ls ret))     [C13]
 //@     invariant (=> (quiet l (- depth 1)) (and (= (app (ls ret) (dropL rest)) (dropL (ls l))) (escL rest)))   [C06]
 //@   inplace obj
 //@   property C10
 //@   decreases (- 1002 depth) 5
 //@ func process1ListReplace(obj, mergeFrom, mergeFromDocs, m, depth) (res, err)
 //@   propagates all   [C08]
+//@   ensures (=> (not (isErr err)) (noNullV res))     [C13]
 //@   decreases (- 1002 depth) 1
 //@ func process1String(obj, mergeFrom, mergeFromDocs, depth) (res, err)
 //@   propagates all   [C08]
+//@   ensures (=> (not (isErr err)) (noNullV res))     [C13]
 //@   ensures (=> (escS obj) (and (not (isErr err)) (= res (VStr obj))))                    [C06]
 //@   decreases (- 1002 depth) 5
 //@ func process1StringMerge(obj, mergeFrom, mergeFromDocs, depth) (res, err)
 //@   propagates all   [C08]
+//@   ensures (=> (not (isErr err)) (noNullV res))     [C13]
 //@   decreases (- 1002 depth) 1
 //@   at call process1#1
 //@     assert (strPathOK (heap Document.Data) (Document.Data mergeFrom) mergeFromDocs (trimPrefix obj "$merge:") in false)      [C10]
 //@ func process1StringReplace(obj, mergeFrom, mergeFromDocs, depth) (res, err)
 //@   propagates all   [C08]
+//@   ensures (=> (not (isErr err)) (noNullV res))     [C13]
 //@   decreases (- 1002 depth) 1
 //@   at call process1#1
 //@     assert (strPathOK (heap Document.Data) (Document.Data mergeFrom) mergeFromDocs (trimPrefix obj "$replace:") in false)    [C10]
@@ -1235,6 +1246,7 @@ package bkl
 // ------------------------------------------------------------------------------------------------- file.go, filepath.go (layer resolution, C03)
 
 //@ func findFile(path) (res)
+//@   effects probe:os.Stat
 //@   property C03, C20
 //@   ensures (= res (findFileF path))                                                                                    [C03] [C20]
 //@   loop 1
@@ -1272,6 +1284,7 @@ package bkl
 //
 //@ func globFiles(path) (res, err)
 //@   propagates all   [C08]
+//@   effects probe:filepath.Glob
 //@   property C03
 //@   uses allDotsApp, sappNil, ssnocApp
 //@   ensures (=> (not (isErr err)) (allDots (sitems res) (strCount (str.++ path ".*") ".")))                                                        [C03]
@@ -1295,6 +1308,7 @@ package bkl
 //
 //@ func file.parentsFromSymlink(f) (res, err)
 //@   propagates all   [C08]
+//@   effects probe:filepath.EvalSymlinks
 //@   property C03
 //@   modifies file.path[f]
 //@   ensures (=> (isStdinF (old (file.path f))) (and (not (isErr err)) (= res SliceNil) (= (file.path f) (old (file.path f)))))             [C03]
